@@ -779,8 +779,12 @@ def session_check(sess, rng, stats=None):
     changed = True
     while changed and len(hist.steps) > 1:
         changed = False
-        for j in range(len(hist.steps) - 1):
-            cand = Session(hist.frac, hist.N, hist.seed, hist.steps[:j] + hist.steps[j + 1:])
+        cands = [Session(hist.frac, hist.N, hist.seed, hist.steps[:j] + hist.steps[j + 1:]) for j in range(len(hist.steps) - 1)]
+        # an error-path call that can be replaced by the same call without the fault is not what matters
+        cands += [Session(hist.frac, hist.N, hist.seed,
+                          hist.steps[:j] + [Step(hist.steps[j].cfg, max(1, hist.steps[j].cores))] + hist.steps[j + 1:])
+                  for j in range(len(hist.steps) - 1) if hist.steps[j].fault is not None]
+        for cand in cands:
             b = run_session(cand, rng)
             if b is not None and b[0] == len(cand.steps) - 1 and b[1] == clause:
                 hist = cand
